@@ -12,33 +12,33 @@ open IsoMdl IsoMdl.Cose
 /-- FULL-STRENGTH: whenever issuer authentication is reported Valid, the MSO decoded from the
 SIGNED payload has the document's docType and every disclosed item hashes, under the MSO's digest
 algorithm, to the valueDigests entry for its namespace and digestID. -/
-theorem C04_issuer_valid_binds (f : Facts) (hnp : (handleResponse f).panics = false)
+theorem C04_issuer_valid_binds (f : Facts)
     (h : (handleResponse f).issuer = .valid) :
     f.msoDecodes = true ∧ f.digestsMatch = true ∧ f.docTypeMatches = true := by
-  obtain ⟨_, _, _, _, _, _, _, _, _, _, _, _, _, _, hm, hdt, hdg⟩ := (C03_issuer_valid_iff f hnp).mp h
+  obtain ⟨_, _, _, _, _, _, _, _, _, _, _, _, _, _, hm, hdt, hdg⟩ := (C03_issuer_valid_iff f).mp h
   exact ⟨hm, hdg, hdt⟩
 
 /-- An altered value / identifier / random / digestID, a moved or injected item (some digest no
 longer matches) or a mismatching docType is never reported as issuer-authenticated. -/
-theorem C04_altered_not_valid (f : Facts) (hnp : (handleResponse f).panics = false)
+theorem C04_altered_not_valid (f : Facts)
     (h : f.digestsMatch = false ∨ f.docTypeMatches = false) : (handleResponse f).issuer ≠ .valid := by
   intro hv
-  obtain ⟨_, h1, h2⟩ := C04_issuer_valid_binds f hnp hv
+  obtain ⟨_, h1, h2⟩ := C04_issuer_valid_binds f hv
   rcases h with h | h <;> simp_all
 
 /-- … and it is reported with an error entry (from C03). -/
-theorem C04_altered_has_error (f : Facts) (hnp : (handleResponse f).panics = false)
+theorem C04_altered_has_error (f : Facts)
     (h : f.digestsMatch = false ∨ f.docTypeMatches = false) : (handleResponse f).errors ≠ [] :=
-  C03_nonvalid_has_error f hnp (C04_altered_not_valid f hnp h)
+  C03_nonvalid_has_error f (C04_altered_not_valid f h)
 
 /-- the signature over the MSO itself is checked as well -/
-theorem C04_mso_signature_checked (f : Facts) (hnp : (handleResponse f).panics = false)
+theorem C04_mso_signature_checked (f : Facts)
     (h : (handleResponse f).issuer = .valid) : f.issuerSigAccepts = true ∧ f.issuerPayloadAttached = true := by
-  obtain ⟨_, _, _, _, _, _, _, _, _, _, _, hp, _, ha, _⟩ := (C03_issuer_valid_iff f hnp).mp h
+  obtain ⟨_, _, _, _, _, _, _, _, _, _, _, hp, _, ha, _⟩ := (C03_issuer_valid_iff f).mp h
   exact ⟨ha, hp⟩
 
 /-- non-vacuity: the former counterexamples are now Invalid with an issuer-authentication error -/
-example : (handleResponse { honest with digestsMatch := false }) = ⟨.invalid, .valid, [.issuerAuth], true, false⟩ := by decide
+example : (handleResponse { honest with digestsMatch := false }) = ⟨.invalid, .valid, [.issuerAuth], true⟩ := by decide
 example : (handleResponse { honest with docTypeMatches := false }).issuer = .invalid := by decide
 example : (handleResponse honest).issuer = .valid := by decide
 
